@@ -27,7 +27,7 @@ func init() {
 }
 
 func runC03(p *load.Program, r *oblig.Report) {
-	checkFlowTable(p, r, "C03.R1 commit and resume field flows", c03FlowsJSON, 38)
+	checkFlowTable(p, r, "C03.R1 commit and resume field flows", c03FlowsJSON, 30)
 	c03Merge(p, r)
 	c03CommitOffsets(p, r)
 	c03ConnErrors(p, r)
